@@ -108,3 +108,76 @@ Example C14_ex_cuts :
   stream_decode spec_decode false 40 [] [] (firstn 25 inp) = Some [97; 98; 99; 100; 101] /\
   cut f4_witness [FLz4 f4_lz4 []; FLegacy (firstn 0 [(f4_block, [97; 98; 99; 100; 101])])].
 Proof. cbv zeta. repeat split; try (vm_compute; reflexivity). apply cut_cons. apply (cut_legacy [(f4_block, [97; 98; 99; 100; 101])] 0). Qed.
+
+(* ------------------------------------------------------------------------------------------------
+   The concrete single-thread LZ4IO_decompressLZ4F loop (Model/IoLz4f.v: header call on the 4 magic bytes,
+   fread of min(hint, 64 KB), inner loop around LZ4F_decompress_usingDict with a 64 KB destination, fwrite,
+   exits 62/66/70/67/68) over the decoder model Model/FrameD.v, instead of the abstract step Io.lz4f_st.
+
+   C14_lz4f_st_concrete_sound ("no success on a failed decode", concretely): whenever the loop returns to
+   LZ4IO_decompressSrcFile (no END_PROCESS), whatever the read/write fault oracle, the test flag, the hints
+   the decoder gave and the way the frame was cut into fread/fwrite pieces: the magic number followed by the
+   bytes taken from the source begins with a frame that the format specification accepts with every checksum
+   verified, what was handed to fwrite is exactly its content (nothing in test mode), and the source has
+   advanced by the frame plus [lost] bytes that were read after its end and dropped.
+   The block decoder is a parameter (same function in loop and specification).
+
+   What remains of Io.v's abstraction, as a precise statement (C14_lz4f_st_reads_exactly_full_statement, NOT
+   proved): lost = [] - LZ4F's hints never exceed what is left of the frame.  It is a property of the hint
+   values of Model/FrameD.v (no theorem about them exists); every run of c14.py checks it (kind stloop: the
+   fread request/return sequence of the real binary equals the model's ERead events, and the bytes left after
+   a valid frame are exactly what follows it) and compares the concrete loop with Io.lz4f_st (status, output,
+   bytes left; the traces differ by the chunking only: one ERead/EWrite against their sums).
+   Exit codes: the concrete model is exact (62 header call fails, 66 a later call fails, 70 write error, 67
+   ferror after the loop, 68 fread returned 0 with a non-zero hint); Io.lz4f_st maps 62/66/68 to 66. *)
+From LZ4V Require Model.FrameD Model.IoLz4f Proofs.FrameDProofs Proofs.IoLz4fRefine.
+
+Definition C14_lz4f_st_reads_exactly_full_statement : Prop :=
+  forall (bdec : list byte -> list byte -> option (list byte)) fuel ifuel test fl d0 s s' content rest,
+    IoLz4fRefine.dctx_fresh d0 -> bytes_ok (s_in s) = true ->
+    IoLz4f.lz4f_st_c bdec fuel ifuel false test fl d0 s = Ret tt s' ->
+    frame_decode bdec false [] (IoLz4fRefine.magic4 ++ s_in s) = Some (content, rest) ->
+    s_in s' = rest.
+
+Theorem C14_lz4f_st_concrete_sound :
+  forall (bdec : list byte -> list byte -> option (list byte)) fuel ifuel test fl d0 s s',
+    IoLz4fRefine.dctx_fresh d0 ->
+    FrameD.r_consumed (snd (FrameD.decompress_usingDict bdec d0 IoLz4fRefine.magic4 0 [] (IoLz4f.o_first false))) = 4 ->
+    bytes_ok (s_in s) = true ->
+    IOL_dBufferSize * Z.of_nat ifuel * Z.of_nat fuel < IoLz4fRefine.M64 ->
+    IoLz4f.lz4f_st_c bdec fuel ifuel false test fl d0 s = Ret tt s' ->
+    exists content lost,
+      frame_decode bdec false [] (IoLz4fRefine.magic4 ++ s_in s) = Some (content, lost ++ s_in s') /\
+      s_out s' = s_out s ++ IoLz4fRefine.wrote test content.
+Proof. exact IoLz4fRefine.lz4f_st_c_sound. Qed.
+Print Assumptions C14_lz4f_st_concrete_sound.
+
+(* on a calloc'ed dctx with the fuels of IoLz4f.lz4f_st_run (the header call provably takes the 4 bytes) *)
+Theorem C14_lz4f_st_fresh_sound :
+  forall (bdec : list byte -> list byte -> option (list byte)) fuel ifuel test fl s s',
+    Z.of_nat ifuel = IOL_dBufferSize + 4096 -> Z.of_nat fuel = Z.of_nat (length (s_in s)) + 1 ->
+    bytes_ok (s_in s) = true -> Z.of_nat (length (s_in s)) < 4000000000 ->
+    IoLz4f.lz4f_st_c bdec fuel ifuel false test fl FrameD.dctx_init s = Ret tt s' ->
+    exists content lost,
+      frame_decode bdec false [] (IoLz4fRefine.magic4 ++ s_in s) = Some (content, lost ++ s_in s') /\
+      s_out s' = s_out s ++ IoLz4fRefine.wrote test content.
+Proof. exact IoLz4fRefine.lz4f_st_fresh_sound. Qed.
+Print Assumptions C14_lz4f_st_fresh_sound.
+
+(* the concrete loop run on a frame with one stored block "abc" (no checksums), followed by two bytes: it returns,
+   writes "abc", leaves the two bytes: 14 bytes in two fread calls of 7 (hints 7 and 7), one fwrite *)
+Example C14_ex_concrete_loop :
+  let frame_tail := [96; 64; 130; 3; 0; 0; 128; 97; 98; 99; 0; 0; 0; 0] in
+  match IoLz4f.lz4f_st_c spec_decode 30 30 false false no_faults FrameD.dctx_init (st_init (frame_tail ++ [7; 7]) 0) with
+  | Ret _ s' => s_out s' = [97; 98; 99] /\ s_in s' = [7; 7] /\
+                rev (s_tr s') = [ERead 7 7 false; ERead 7 7 false; EWrite 3 true]
+  | Die _ _ => False
+  end.
+Proof. vm_compute. repeat split; reflexivity. Qed.
+(* the same frame cut after 9 bytes: "unfinished stream", exit 68 (Io.lz4f_st says 66) *)
+Example C14_ex_concrete_unfinished :
+  match IoLz4f.lz4f_st_c spec_decode 30 30 false false no_faults FrameD.dctx_init (st_init [96; 64; 130; 3; 0] 0) with
+  | Die c _ => c = 68
+  | Ret _ _ => False
+  end.
+Proof. vm_compute. reflexivity. Qed.
